@@ -1,0 +1,78 @@
+//go:build verif
+
+// Contracts for govc (contract-based deductive verification); comments only.
+package plugins
+
+// C11 helper contracts (frames derived from the code): what the plugin chain may touch while a pod is
+// being bound. The plugins (gpusharing, k8s-plugins/DRA/volume binding) write ConfigMaps, claims and
+// the in-memory pod; none of them holds a handle on the pods/binding sub-resource, so they leave the
+// ghost "bound" state of package binding alone (it is not in their frames).
+
+//@ ghost pluginRollbacks() int
+// ASSUMED contract of a registered plugin (vendored kube-scheduler plugins behind bindPluginWrapper included).
+//@ func Plugin.PreBind
+//@   props C11
+//@   modifies fields(pod)
+//@   ensures pod.Name == old(pod.Name) && pod.Namespace == old(pod.Namespace) && pod.UID == old(pod.UID)
+//@ end
+//@ func Plugin.PostBind
+//@   props C11
+//@   modifies fields(pod)
+//@   ensures pod.Name == old(pod.Name) && pod.Namespace == old(pod.Namespace) && pod.UID == old(pod.UID)
+//@ end
+// A plugin's Rollback undoes the plugin's own side objects (ConfigMaps, claims, volume reservations); it reads the
+// pod's labels and never relabels the in-memory pod (gpusharing.Rollback / K8sPlugins.Rollback -> UnAllocate only
+// read the pod): the labels Binder.Rollback hands to RemovePodGpuGroupsConnection are the ones it was given.
+//@ func Plugin.Rollback
+//@   props C11
+//@   modifies fields(pod), pluginRollbacks()
+//@   ensures pluginRollbacks() == old(pluginRollbacks()) + 1
+//@   ensures pod.Name == old(pod.Name) && pod.Namespace == old(pod.Namespace) && pod.UID == old(pod.UID)
+//@   ensures pod.Labels == old(pod.Labels)
+//@ end
+//@ func Plugin.Name
+//@   props C11
+//@   pure
+//@ end
+
+//@ func (*BinderPlugins).PreBind
+//@   props C11
+//@   requires bp != nil && pod != nil
+//@   requires forall i int :: 0 <= i && i < len(bp.plugins) ==> bp.plugins[i] != nil
+//@   modifies fields(pod)
+//@   loop 1
+//@     invariant 0 - 1 <= rangeindex && rangeindex < len(bp.plugins)
+//@     invariant pod.Name == old(pod.Name) && pod.Namespace == old(pod.Namespace) && pod.UID == old(pod.UID)
+//@     decreases len(bp.plugins) - rangeindex
+//@   ensures pod.Name == old(pod.Name) && pod.Namespace == old(pod.Namespace) && pod.UID == old(pod.UID)
+//@ end
+
+//@ func (*BinderPlugins).PostBind
+//@   props C11
+//@   requires bp != nil && pod != nil
+//@   requires forall i int :: 0 <= i && i < len(bp.plugins) ==> bp.plugins[i] != nil
+//@   modifies fields(pod)
+//@   loop 1
+//@     invariant 0 - 1 <= rangeindex && rangeindex < len(bp.plugins)
+//@     invariant pod.Name == old(pod.Name) && pod.Namespace == old(pod.Namespace) && pod.UID == old(pod.UID)
+//@     decreases len(bp.plugins) - rangeindex
+//@   ensures pod.Name == old(pod.Name) && pod.Namespace == old(pod.Namespace) && pod.UID == old(pod.UID)
+//@ end
+
+// pluginRollbacks(): number of Plugin.Rollback calls made so far
+// every registered plugin is rolled back, also when an earlier plugin's rollback failed
+//@ func (*BinderPlugins).Rollback
+//@   props C11
+//@   requires bp != nil && pod != nil
+//@   requires forall i int :: 0 <= i && i < len(bp.plugins) ==> bp.plugins[i] != nil
+//@   modifies fields(pod), pluginRollbacks()
+//@   loop 1
+//@     invariant 0 - 1 <= rangeindex && rangeindex < len(bp.plugins)
+//@     invariant pluginRollbacks() == old(pluginRollbacks()) + rangeindex + 1
+//@     invariant pod.Name == old(pod.Name) && pod.Namespace == old(pod.Namespace) && pod.UID == old(pod.UID)
+//@     invariant pod.Labels == old(pod.Labels)
+//@     decreases len(bp.plugins) - rangeindex
+//@   ensures [every-plugin-rolled-back] pluginRollbacks() == old(pluginRollbacks()) + len(bp.plugins)
+//@   ensures pod.Name == old(pod.Name) && pod.Namespace == old(pod.Namespace) && pod.UID == old(pod.UID)
+//@   ensures [in-memory-labels-untouched] pod.Labels == old(pod.Labels)
+//@ end
